@@ -39,7 +39,7 @@ var selRules = map[string]map[string]string{
 		"EpollCreate1": "EpollCreate1", "Eventfd": "Eventfd", "EpollCtl": "EpollCtl", "EpollWait": "EpollWait",
 		"SetsockoptInt": "SetsockoptInt", "SetsockoptLinger": "SetsockoptLinger",
 	},
-	"time":      {"Now": "Now", "Since": "Since"},
+	"time":      {"Now": "Now", "Since": "Since", "NewTicker": "NewTicker", "Sleep": "Sleep", "Ticker": "Ticker"},
 	"math/rand": {"Intn": "Intn"},
 	"net":       {"DialTimeout": "DialTimeout"},
 }
@@ -184,6 +184,28 @@ func rewriteFile(rel string, src []byte) ([]byte, counts, bool, error) {
 		return imps[id.Name], id
 	}
 
+	// 1a. the pool's health probe (a real network round trip): x.detect() -> vsys.Detect(x.Addr, x.detect)
+	if rel == "core/redis_pool.go" {
+		ast.Inspect(f, func(n ast.Node) bool {
+			ce, ok := n.(*ast.CallExpr)
+			if !ok || len(ce.Args) != 0 {
+				return true
+			}
+			se, ok := ce.Fun.(*ast.SelectorExpr)
+			if !ok || se.Sel.Name != "detect" {
+				return true
+			}
+			if _, isPkgName := imps[fmt.Sprint(se.X)]; isPkgName {
+				return true
+			}
+			c["detect-call"]++
+			usesVsys = true
+			ce.Args = []ast.Expr{&ast.SelectorExpr{X: se.X, Sel: ast.NewIdent("Addr")}, &ast.SelectorExpr{X: se.X, Sel: ast.NewIdent("detect")}}
+			ce.Fun = &ast.SelectorExpr{X: ast.NewIdent(vsysName), Sel: ast.NewIdent("Detect")}
+			return false
+		})
+	}
+
 	// 1. selectors
 	ast.Inspect(f, func(n ast.Node) bool {
 		se, ok := n.(*ast.SelectorExpr)
@@ -242,9 +264,15 @@ func rewriteFile(rel string, src []byte) ([]byte, counts, bool, error) {
 	walkStmt = func(s ast.Stmt) ast.Stmt {
 		switch st := s.(type) {
 		case *ast.GoStmt:
-			if se, ok := st.Call.Fun.(*ast.SelectorExpr); ok && se.Sel.Name == "monitor" {
-				c["go-monitor-dropped"]++
-				return &ast.EmptyStmt{}
+			if se, ok := st.Call.Fun.(*ast.SelectorExpr); ok && se.Sel.Name == "monitor" && len(st.Call.Args) == 0 {
+				// the health monitor becomes a cooperative thread of the simulated world (not started at all unless
+				// the scenario enables threads)
+				c["go-monitor-thread"]++
+				usesVsys = true
+				return &ast.ExprStmt{X: &ast.CallExpr{
+					Fun:  &ast.SelectorExpr{X: ast.NewIdent(vsysName), Sel: ast.NewIdent("GoThread")},
+					Args: []ast.Expr{&ast.BasicLit{Kind: token.STRING, Value: strconv.Quote("monitor")}, se},
+				}}
 			}
 			walkFuncLits(st.Call)
 			return st
